@@ -35,7 +35,7 @@ DTYPES = ['float64', 'float64', 'float32', 'float16', 'int64', 'int32', 'longdou
 # ---------- random trees (tagged tuples) ----------
 def rand_mv(an):
     canon = CANON[an]
-    kind = random.choice(['sparse', 'canon', 'binary', 'perm', 'sparseperm', 'array', 'array', 'ndarray', 'nd1'])
+    kind = random.choice(['sparse', 'canon', 'binary', 'perm', 'sparseperm', 'array', 'array', 'ndarray', 'nd1', 'nd2'])
     if kind in ('sparse',):
         keys = [k for k in canon if random.random() < 0.5] or [canon[0]]
     elif kind == 'canon':
@@ -48,6 +48,10 @@ def rand_mv(an):
         keys = random.sample(canon, random.randint(1, len(canon)))
     else:
         keys = random.choice([list(canon), sorted(canon), random.sample(canon, random.randint(1, len(canon)))])
+    if kind == 'nd2':                     # two array axes (a grid of elements): elements are enumerated in row-major order
+        n, m = random.choice([(2, 3), (3, 2), (2, 2), (1, 3), (3, 1), (2, 4)])
+        vals = [[random.randint(-9, 9) for _ in range(n * m)] for _ in keys]
+        return ('mv', an, keys, vals, True, random.choice(['nd2', 'nparr2']) + f':{n}x{m}:' + random.choice(DTYPES))
     if kind in ('array', 'ndarray'):
         n = random.randint(1, 3) if kind == 'array' else random.randint(1, 3)
         vals = [[random.randint(-9, 9) for _ in range(n)] for _ in keys]
@@ -83,6 +87,11 @@ def to_py(t):
         _, an, keys, vals, arr, kind = t
         alg = ALGS[an]
         kind, _, dt = kind.partition(':')
+        if kind in ('nd2', 'nparr2'):
+            grid, _, dt = dt.partition(':')
+            n, m = (int(q) for q in grid.split('x'))
+            v = np.array(vals, dtype=np.dtype(dt)).reshape(len(keys), n, m)
+            return MultiVector.fromkeysvalues(alg, tuple(keys), v if kind == 'nd2' else list(v))
         dt = np.dtype(dt or 'float64')
         if kind == 'list':
             v = [c[0] for c in vals]
@@ -213,6 +222,7 @@ def truth(t):
         if not arr:
             return [('E', [num_of(c) for c in cols])]
         n = len(vals[0])
+        cols = [c if isinstance(c, int) else np.asarray(c).reshape(-1) for c in cols]
         return [('E', [num_of(c[i]) if not isinstance(c, int) else c for c in cols]) for i in range(n)]
     if tag in ('list', 'tuple'):
         return [[y for x in t[1] for y in truth(x)]]
